@@ -12,7 +12,7 @@ def run(ck):
     # (D) the clauses as invariants / action property of the implementation-shaped model (simulation), nested inputs (clauses 5/6) and forks (7/8)
     hists = conslib.permsg_design(ck, "c07n", "nest3", 100 if quick else 3000, maxround=2)
     hists2 = conslib.permsg_design(ck, "c07f", "nest", 100 if quick else 3000, maxround=2, rank="RankRev")
-    plan = [("random", 24), ("uniform", 4), ("gst", 6)] if ck.tier == "quick" else [("random", 250), ("uniform", 30), ("gst", 60)]
+    plan = [("random", 40), ("uniform", 4), ("gst", 6)] if ck.tier == "quick" else [("random", 250), ("uniform", 30), ("gst", 60)]
     seeds = [ck.seed] if ck.tier == "quick" else [ck.seed, ck.seed + 1000]
     traces, st = conslib.run_layers(ck, plan, ["C07_"], seeds=seeds)
     # (R-conf) schedules chosen by TLC replayed on the real participants: Layer A clauses + step-by-step conformance (Layer B)
